@@ -36,7 +36,7 @@ ADDTERM_STR = P.verify(fn(
     'sfc_models.equation.Equation.AddTerm', name='sfc_models.equation.Equation.AddTerm[str]',
     args=dict(self=Ref('Equation'), term=STR),
     requires=[('inv', 'eq_inv(self)')],
-    modifies=['len', 'el.R', 'f.Term.Constant', 'f.Term.Term', 'f.Term.IsSimple', 'f.Term.IsBlob', 'f.Term.owner_', 'f.Term.pos_', 'tyof'],
+    modifies=['len.R', 'el.R', 'f.Term.Constant', 'f.Term.Term', 'f.Term.IsSimple', 'f.Term.IsBlob', 'f.Term.owner_', 'f.Term.pos_', 'tyof'],
     loops=ADDTERM_LOOP, ghost_after=GHOST_APPEND,
     ensures=[('inv', 'eq_inv(self)'),
              ('den_additive', 'Den(self) == old(Den(self)) + V(nospace(term))'),
@@ -52,7 +52,7 @@ ADDTERM_TERM = P.verify(fn(
     args=dict(self=Ref('Equation'), term=Ref('Term')),
     requires=[('inv', 'eq_inv(self)'),
               ('term_inv', 'implies(term.IsBlob, term.Constant == 1.0)')],
-    modifies=['len', 'el.R', 'f.Term.Constant', 'f.Term.Term', 'f.Term.IsSimple', 'f.Term.IsBlob', 'f.Term.owner_', 'f.Term.pos_', 'tyof'],
+    modifies=['len.R', 'el.R', 'f.Term.Constant', 'f.Term.Term', 'f.Term.IsSimple', 'f.Term.IsBlob', 'f.Term.owner_', 'f.Term.pos_', 'tyof'],
     loops=ADDTERM_LOOP, ghost_after=GHOST_APPEND,
     ensures=[('inv', 'eq_inv(self)'),
              ('den_additive', 'Den(self) == old(Den(self)) + old(TV(term))'),
@@ -112,7 +112,7 @@ P.verify(fn(
          "implies(term.strip() != '', Den(%s) == old(Den(%s)) + (V(nospace(term)) if applies else 0.0))" % (EQ_INC, EQ_INC)),
         ('ledger_objects_kept', "%s is old(%s) and %s is old(%s)" % (EQ_F, EQ_F, EQ_INC, EQ_INC)),
         ('ledger_invariants', 'eq_inv(%s) and eq_inv(%s)' % (EQ_F, EQ_INC)),
-        ('only_the_two_ledgers_written', "heap_unchanged_except('tyof', 'len', 'el.R', 'f.Term.Constant', 'f.Term.Term', 'f.Term.IsSimple', 'f.Term.IsBlob', 'f.Term.owner_', 'f.Term.pos_') "
+        ('only_the_two_ledgers_written', "heap_unchanged_except('tyof', 'len.R', 'el.R', 'f.Term.Constant', 'f.Term.Term', 'f.Term.IsSimple', 'f.Term.IsBlob', 'f.Term.owner_', 'f.Term.pos_') "
                                          "and terms_frame2(%s, %s)" % (EQ_F, EQ_INC)),
     ],
     raises=[RaisesSpec('SyntaxError', when='term_outcome(term) == 1', ensures=[('nothing_changed', "heap_unchanged_except('tyof', 'f.Term.Constant', 'f.Term.Term', 'f.Term.IsSimple', 'f.Term.IsBlob')")]),
